@@ -51,9 +51,10 @@ extern int sf_verif_get_state (SNDFILE *sndfile, void *out, int size) ;
 extern int sf_verif_check_invariants (SNDFILE *sndfile, char *why, int whylen) ;
 extern void sf_verif_get_globals (int *errno_out, uint64_t *parselog_digest, uint64_t *syserr_digest) ;
 
-extern void __sanitizer_set_death_callback (void (*cb) (void)) ;
-extern size_t __sanitizer_get_current_allocated_bytes (void) ;
-extern int __lsan_do_recoverable_leak_check (void) ;
+/* weak: absent in the non-sanitizer variants (fast, nosse) */
+extern void __sanitizer_set_death_callback (void (*cb) (void)) __attribute__ ((weak)) ;
+extern size_t __sanitizer_get_current_allocated_bytes (void) __attribute__ ((weak)) ;
+extern int __lsan_do_recoverable_leak_check (void) __attribute__ ((weak)) ;
 
 /*------------------------------------------------------------------ globals */
 static const char *vh_mon = "?" ;		/* monitor name */
@@ -182,6 +183,7 @@ static void vh_death (void)
 	fprintf (vh_out, "{\"t\":\"crash\",\"case\":%ld,\"desc\":", vh_case_idx) ; vh_json_str (vh_out, vh_case_desc) ; fprintf (vh_out, "}\n") ;
 	vh_flush_stats () ;
 }
+static void vh_sigdeath (int sig) { fprintf (stderr, "ERROR: UndefinedBehaviorSanitizer: signal-%d \n", sig) ; vh_death () ; _exit (99) ; }
 static void vh_alarm (int sig)
 {	(void) sig ;
 	if (vh_out)
@@ -221,7 +223,8 @@ static void vh_init (int argc, char **argv, const char *mon, const char *prop)
 		snprintf (priv, sizeof (priv), "%s/p%d", td && *td ? td : "/tmp", (int) getpid ()) ;
 		if (mkdir (priv, 0700) == 0 || errno == EEXIST) setenv ("TMPDIR", priv, 1) ;
 		}
-	__sanitizer_set_death_callback (vh_death) ;
+	if (__sanitizer_set_death_callback) __sanitizer_set_death_callback (vh_death) ;
+	else { signal (SIGSEGV, vh_sigdeath) ; signal (SIGFPE, vh_sigdeath) ; signal (SIGBUS, vh_sigdeath) ; signal (SIGABRT, vh_sigdeath) ; signal (SIGILL, vh_sigdeath) ; }
 	signal (SIGALRM, vh_alarm) ;
 	signal (SIGPIPE, SIG_IGN) ;
 	if (vh_only >= 0) vh_verbose = 1 ;
